@@ -4,6 +4,8 @@ reference-decoded peer table, and extraction of the Adj-RIB-Out ExaBGP reports."
 
 from __future__ import annotations
 
+import struct
+
 import ipaddress
 import re
 
@@ -28,7 +30,13 @@ def variant_text(v: dict) -> str:
         out += ' as-path [' + ' '.join(str(a) for a in v['aspath']) + ']'
     if v.get('origin'):
         out += f' origin {v["origin"]}'
+    if v.get('ext'):
+        out += ' extended-community [ ' + ' '.join(f'target:65000:{n}' for n in v['ext']) + ' ]'
     return out
+
+
+def ext_hex(asn: int, n: int) -> str:
+    return (bytes([0, 2]) + struct.pack('!HL', asn, n)).hex()
 
 
 def route_text(r: dict, variants: list[dict]) -> str:
@@ -57,10 +65,14 @@ def gen_variants(rng, n: int) -> list[dict]:
         if rng.chance(0.3):
             v['origin'] = rng.choice(['igp', 'egp', 'incomplete'])
         out.append(v)
+    f = rng.fork('variant-ext')  # (a side stream: the plans generated so far keep their draws)
+    for i, v in enumerate(out):
+        if f.chance(0.4):
+            v['ext'] = sorted({10 * (i + 1) + f.randint(0, 3) for _ in range(f.randint(1, 2))})  # numbers no other variant uses
     return out
 
 
-def expected_attrs(v: dict, ebgp: bool, local_as: int) -> dict:
+def expected_attrs(v: dict, ebgp: bool, local_as: int, shared_ext=()) -> dict:
     """canonical attribute values a peer must decode for variant v (RFC defaults for the rest)"""
     a = {'origin': {'igp': 0, 'egp': 1, 'incomplete': 2}[v.get('origin') or 'igp'], 'med': v['med']}
     path = list(v.get('aspath') or [])
@@ -73,6 +85,9 @@ def expected_attrs(v: dict, ebgp: bool, local_as: int) -> dict:
     a['as_path'] = [(2, tuple(path))] if path else []
     if v.get('comm'):
         a['communities'] = sorted((x, y) for x, y in v['comm'])
+    ext = sorted({ext_hex(65000, n) for n in v.get('ext') or []} | set(shared_ext))
+    if ext:
+        a['ext_communities'] = ext
     return a
 
 
@@ -166,7 +181,7 @@ def peer_view(table: R.PeerTable) -> dict:
     return {k: ((v['next_hop'][0] if v['next_hop'] else None), v['attrs'].get('med')) + ((v['labels'][0],) if v.get('labels') else ()) for k, v in table.routes.items()}
 
 
-def attrs_mismatch(table: R.PeerTable, variants: list[dict], nb: dict) -> str | None:
+def attrs_mismatch(table: R.PeerTable, variants: list[dict], nb: dict, shared: dict | None = None) -> str | None:
     """every route the peer holds carries exactly the attribute values of the operator's variant its MED names (MEDs are
     unique per variant), with the RFC defaults of that session for the rest - nothing of another variant mixed in"""
     ebgp = nb['peer_as'] != nb.get('local_as', 65001)
@@ -176,7 +191,7 @@ def attrs_mismatch(table: R.PeerTable, variants: list[dict], nb: dict) -> str | 
         v = by_med.get(a.get('med'))
         if v is None:
             return f'{fmt_key(k)}: MED {a.get("med")} names no variant the operator ever used'
-        want = expected_attrs(v, ebgp, nb.get('local_as', 65001))
+        want = expected_attrs(v, ebgp, nb.get('local_as', 65001), (shared or {}).get(k, ()))  # shared: extended communities a `group attributes` line added
         have = dict(a)
         have.setdefault('as_path', [])
         if have != want:
